@@ -276,9 +276,10 @@ pub fn check_program(p: &Program, cap: u64, max_bound: usize, random_after: u64,
         message: format!("program {:?} on initial tree {:?}: {}\n  schedule (thread id per decision): {:?}", rendered, init.render(), msg, schedule),
         replay: json!({"kind": "c16", "program": program_to_json(p), "schedule": schedule}),
     };
-    if !strict && matches_session_finding(&prog) {
-        return Ok(Verdict { stats: ExploreStats::default(), skipped_known: true, shared_mutation: false });
-    }
+    // Programs in which the open finding KF-3 can show (a lost or half-visible session) are not
+    // judged against the sequential specification - but a panic, a poisoned lock or a deadlock in
+    // them is a different violation and is still reported.
+    let weak = !strict && matches_session_finding(&prog);
     let seq = sequential_outcomes(&prog, &init);
     // cross-check the model once against a single-threaded run of the real MemoryFS
     {
@@ -328,6 +329,17 @@ pub fn check_program(p: &Program, cap: u64, max_bound: usize, random_after: u64,
                 }
                 let results: Vec<Vec<Res>> = outs.iter().map(|o| o.iter().map(res_of).collect()).collect();
                 let root = current_root.borrow().clone().unwrap();
+                if weak {
+                    // the filesystem is still usable (no poisoned lock)
+                    for q in probe_paths.iter().map(|s| s.as_str()).chain(std::iter::once("")) {
+                        for o in [Op::Exists(q.to_string()), Op::Metadata(q.to_string()), Op::ReadDir(q.to_string())] {
+                            if let Outcome::Panic(m) = exec(&root, &o) {
+                                return Err(format!("after the program (results {:?}) the filesystem is unusable: {} panicked: {}", results, o.render(), m));
+                            }
+                        }
+                    }
+                    return Ok(());
+                }
                 let snap = snapshot(&root);
                 if let Err(m) = snap.tree.well_formed() {
                     return Err(format!("final tree is not well-formed: {} (results {:?})", m, results));
@@ -367,7 +379,7 @@ pub fn check_program(p: &Program, cap: u64, max_bound: usize, random_after: u64,
             }
         }
     }
-    Ok(Verdict { stats, skipped_known: false, shared_mutation: shared })
+    Ok(Verdict { stats, skipped_known: weak, shared_mutation: shared })
 }
 
 fn program_to_json(p: &Program) -> Value {
@@ -406,7 +418,20 @@ const RULE: &str = "programs of 2..3 threads x 1..3 calls from {create_dir, writ
 /// and removes entries, every `open_file` must leave an access time that is not older than the
 /// moment before the call - in every sequential order of whole calls it does. Reaches behaviour
 /// that depends on the lock being CONTENDED, which a cooperative scheduler cannot produce.
+/// `contention_stress_inner` on a detached thread: calls that block each other for ever are reported
+/// (the whole part normally takes seconds)
 fn contention_stress(rounds: u32) -> Result<u64, Failure> {
+    let (tx, rx) = std::sync::mpsc::channel();
+    std::thread::spawn(move || {
+        let _ = tx.send(contention_stress_inner(rounds));
+    });
+    match rx.recv_timeout(std::time::Duration::from_secs(300)) {
+        Ok(r) => r,
+        Err(_) => Err(Failure { message: "truly parallel open_file + metadata calls next to three listing threads and one creating/removing thread made no progress for 300 s: the calls block each other (deadlock)".into(), replay: json!({"kind": "c16-contention"}) }),
+    }
+}
+
+fn contention_stress_inner(rounds: u32) -> Result<u64, Failure> {
     use std::sync::atomic::{AtomicBool, Ordering};
     use std::time::{Duration, SystemTime};
     let root = VfsPath::new(MemoryFS::new());
@@ -498,6 +523,7 @@ pub fn run(ctx: &RunCtx) -> i32 {
         if counting {
             if v.skipped_known {
                 st.exclude("memfs:session-open-then-publish");
+                st.label_n("schedules_of_KF-3_programs_checked_for_panic_poisoning_deadlock_only", v.stats.schedules);
                 return Ok(());
             }
             st.evaluations += v.stats.schedules.saturating_sub(1);
@@ -550,6 +576,7 @@ pub fn run(ctx: &RunCtx) -> i32 {
                             Ok(v) => {
                                 if v.skipped_known {
                                     st.exclude("memfs:session-open-then-publish");
+                                    st.label_n("schedules_of_KF-3_programs_checked_for_panic_poisoning_deadlock_only", v.stats.schedules);
                                     continue;
                                 }
                                 st.evaluations += v.stats.schedules;
@@ -592,7 +619,7 @@ pub fn run(ctx: &RunCtx) -> i32 {
         RULE,
         &stats,
         json!({"regress_replayed": reg.replayed, "known_findings_confirmed": reg.known_confirmed, "schedule_cap_per_program": cap, "max_preemption_bound": max_bound}),
-        &["interleavings finer than lock acquisitions do not exist in safe code holding one lock", "programs matching the open finding KF-3 (write/append sessions are open-then-publish) are skipped and counted", "3-thread and 2x3 programs are preemption-bounded and sampled when their tree exceeds the cap"],
+        &["interleavings finer than lock acquisitions do not exist in safe code holding one lock", "programs matching the open finding KF-3 (write/append sessions are open-then-publish) are counted as excluded from the linearizability oracle; their schedules are still explored and must not panic, poison the lock or deadlock", "3-thread and 2x3 programs are preemption-bounded and sampled when their tree exceeds the cap"],
         failure.is_some() as u32,
     );
     finish(ctx, &stats, &failure, &[("distinct_nontrivial", 8), ("programs_explored", 16)])
